@@ -62,9 +62,9 @@ CLAIMED = {
          "Props/C17.v: C17_interior, C17_minmax, C17_scan, C17_level_any_layout, C17_level_plain. The executable model Writers.Chk2plt.convert_level (state-file scan, ghost stripping, flooring table, gradp / I_R at recorded offsets, offset-sorted tasks mapped back to box order) is compared byte for byte with chk2plt's output on synthetic checkpoints (1-3 levels, 1-3 ghost cells, anisotropic shifted domains, independent layouts per data subset, all flag combinations, species from list or reference plotfile); the independent reader checks fields, levels, boxes, time, geometry, interior values, rescaled mass fractions, min/max; taste with box coordinates; the checkpoint tree is hashed before and after (incl. one checkpoint with a state FAB above 4 MiB per run).",
          "partial: the checkpoint Header parse, dx = domain / grid, box bounds and the text writers are checked at property level only (not modelled); flooring division is numpy's (table); two defects repaired by fix: commits, see KNOWN_FINDINGS.txt.",
          "DESIGN.md section 3 C17"),
- 'C14': ("Coq proof (induction lifting per-operation preservation/refinement to every finite pipeline and every intermediate state; strain-all identity; cook-then-combine identity on box contents) + hop-by-hop correspondence of the composed extracted models with the real tool chain",
-         "Props/C14.v: C14_pipeline, C14_colander_chain and C14_strain_combine_chain (hypotheses discharged for every sequence of colander and combine runs: succeeds, equals the composed specifications, every intermediate directory is a good plotfile), C14_chain_then_chef (a chef run closing such a chain writes the image of the cooked plotfile), C14_outputs_accepted (taste accepts them), C14_strain_all_identity, C14_cook_combine. Pipelines over {colander, chef, combine with sibling, combine with ancestor} (all sequences of length <= 2 over the kinds, sampled up to 4) are run on generated plotfiles; after every hop the output is parsed by the independent reader and compared with the composed pure numpy operations, validated by taste (with and without box coordinates), and compared byte for byte with the composition of the extracted Writers.* models.",
-         "the per-operation hypotheses of C14_pipeline are proved at tool level for colander and combine; for chef one hop is proved at tool level (C11_tool) but its output carries bit-pattern min/max tokens, so chains through chef are established by correspondence; chk2plt as a source is covered by C17.",
+ 'C14': ("Coq proof of the pipeline theorem with its hypotheses discharged for all three writers (C14_full_chain: every finite sequence of colander, combine and chef (user recipe) runs succeeds, equals the composed specifications, every intermediate directory is the image of a good plotfile - a cooked plotfile is good because the model's min/max stand-ins are float literals; validator accepts every output; strain-all and cook-then-combine identities) + hop-by-hop correspondence of the composed extracted models AND of the composed specifications with the real tool chain",
+         "Props/C14.v: C14_pipeline, C14_colander_chain, C14_strain_combine_chain, C14_chain_then_chef, C14_full_chain (chef anywhere in the chain), C14_full_outputs_accepted, C14_outputs_accepted, C14_strain_all_identity, C14_cook_combine. Pipelines over {colander, chef, combine with sibling, combine with ancestor} (all sequences of length <= 2 over the kinds, sampled up to 4) are run on generated plotfiles; after every hop the output is parsed by the independent reader and compared with the composed pure numpy operations, validated by taste (with and without box coordinates), compared byte for byte with the composition of the extracted Writers.* models, and the images of the composed pure operations of the theorem (Entry.e_full_chain on the abstract plotfile) are compared with those of the composed tool models - the instance of C14_full_chain for each chain; plus chains with a built-in Cantera recipe (cook keeping temp / Y(O2), combine back into the original).",
+         "built-in (Cantera) recipes enter chains by correspondence only; 'good' (a Prop) is not evaluated on generated plotfiles: the image check pf_disk pf = directory on disk and the per-hop agreement stand for it; chk2plt as a source is covered by C17.",
          "DESIGN.md section 3 C14"),
  'C12': ("Coq proof (ordered map/imap pairing is independent of the execution order; file-system confluence of tasks touching disjoint files for every execution order; order-free keyed painting) + exhaustive task-order runs of every tool under a controlled pool with audited task file sets",
          "Props/C12.v: C12_ordered_pairing, C12_unordered_needs_keys, C12_fs_confluence, C12_painting_order_free. 13 tool scenarios (reader selections / iteration, taste, colander, combine x3 modes, chef, mandoline 2D / 3D, pestle, whip, chk2plt) are run under the submission order and 27 other task orders (all 24 orders of every pool call with <= 4 tasks, reverse, random), and in serial mode where it exists; returned values and the sha256 of every output file must equal the baseline; every task's open() calls are audited and the independence hypothesis of the confluence theorem is checked on every pool call; thorough tier adds real process pools with 1, 2, 16 workers.",
